@@ -246,7 +246,9 @@ func Harness_C05_Nesting() {
 // Harness_C05_Malformed: lone surrogates, raw control characters, bad escapes and truncations are errors.
 func Harness_C05_Malformed() {
 	var body []byte
-	switch verifrt.Choose("kind", 5) {
+	switch verifrt.Choose("kind", 6) {
+	case 5: // a bare token that is neither a literal nor a number
+		body = [][]byte{[]byte("x"), []byte("True"), []byte("nul"), []byte("0z"), []byte("1e"), []byte("--1"), []byte("1e999"), []byte("NaN"), []byte("Infinity")}[verifrt.Choose("token", 9)]
 	case 0: // raw control character
 		c := verifrt.AnyU8("ctl")
 		verifrt.Assume(c < 0x20)
@@ -266,7 +268,7 @@ func Harness_C05_Malformed() {
 	}
 	_, err := Transform(cat([]byte(`[`), body, []byte(`]`)))
 	verifrt.Reach("checked")
-	verifrt.Assert(err != nil, "malformed string literal is rejected with an error")
+	verifrt.Assert(err != nil, "malformed string literals and bare tokens are rejected with an error")
 }
 
 // Harness_C05_NumberGlue: NaN / infinities are errors and both zeros print as "0" for every bit pattern.
